@@ -263,7 +263,11 @@ def main(argv):
         coverage=coverage, assumptions=plan.get('assumptions', []),
         wall_s=round(wall, 2), violations=len(new),
     )
-    with open(os.path.join(HERE, 'evidence', '%s.json' % prop), 'w') as f:
+    # runs against a scratch tree (VERIF_REPO set by the developer aids) must not overwrite the evidence
+    # of /repo itself: they name another directory
+    evdir = os.environ.get('VERIF_EVIDENCE_DIR') or os.path.join(HERE, 'evidence')
+    os.makedirs(evdir, exist_ok=True)
+    with open(os.path.join(evdir, '%s.json' % prop), 'w') as f:
         json.dump(jsonable(evidence), f, indent=1)
 
     print('%s tier=%s seed=%d: %d evaluations, %d distinct non-trivial, %d new violations, '
